@@ -5,6 +5,7 @@ A *drawing* is a forest of rings.  Every ring is a simple closed curve given by 
 
     ("L", P, Q)                 straight edge between integer points P and Q
     ("A", (cx, cy), r, t0, t1)  circular edge, counter-clockwise from angle t0 to t1
+                                (optionally followed by its exact end nodes P, Q)
 
 Ring kinds: rect, convex (cut-corner polygon), star, rectilinear (L / U / stairs), circle,
 bullet (rectangle capped by a half circle: lines and an arc in one ring).  Polygon vertices
@@ -128,7 +129,7 @@ class Ring:
                 per += r * span
                 # region between the chord and the arc
                 arc_area += 0.5 * r * r * (span - math.sin(span))
-                pts.append(_arc_point_exact(cx, cy, r, t0))
+                pts.append(e[5] if len(e) > 5 else _arc_point_exact(cx, cy, r, t0))
                 # an arc that is a whole circle or a half circle of the generator: bbox from the
                 # quadrant points inside the span
                 k0 = math.ceil(t0 / (math.pi / 2) - 1e-12)
@@ -146,6 +147,16 @@ class Ring:
             r = self.edges[0][2]
             self.area = math.pi * r * r
             self.arc_area = self.area
+        elif self.params.get("float_nodes"):
+            # nodes that are not integers (opt-in: fillets, inscribed polygons): float shoelace of
+            # the chord polygon about its first node + the circular segments
+            x0, y0 = float(pts[0][0]), float(pts[0][1])
+            q = [(float(a) - x0, float(b) - y0) for a, b in pts]
+            poly = 0.5 * math.fsum(q[i][0] * q[(i + 1) % len(q)][1] - q[(i + 1) % len(q)][0] * q[i][1]
+                                   for i in range(len(q)))
+            assert poly > 0, "rings are generated counter-clockwise"
+            self.area = poly + arc_area
+            self.arc_area = arc_area
         else:
             poly = Fraction(shoelace2([(int(round(p[0])), int(round(p[1]))) for p in pts]), 2)
             assert poly > 0, "rings are generated counter-clockwise"
@@ -360,11 +371,54 @@ def make_horseshoe(rnd, box, thick=None):
     return _poly_ring("horseshoe", pts, (x0, y0, x0, y0), params)
 
 
+def crowned_edge(P, Q, sag):
+    """
+    The shallow arc from P to Q (counter-clockwise about its centre) that bulges by `sag` to the right
+    of the direction P -> Q, i.e. outwards for a convex ring walked counter-clockwise:
+    ("A", (cx, cy), R, t0, t1) with R = (L^2 / 4 + sag^2) / (2 sag).
+    """
+    dx, dy = Q[0] - P[0], Q[1] - P[1]
+    L = math.hypot(dx, dy)
+    R = (L * L / 4.0 + sag * sag) / (2.0 * sag)
+    nx, ny = dy / L, -dx / L
+    d = R - sag
+    cx, cy = (P[0] + Q[0]) / 2.0 - nx * d, (P[1] + Q[1]) / 2.0 - ny * d
+    half = math.asin(min(1.0, L / (2.0 * R)))
+    tm = math.atan2(ny, nx)
+    return ("A", (cx, cy), R, tm - half, tm + half, tuple(P), tuple(Q))
+
+
+def make_crowned(rnd, box):
+    """
+    A rectangle with one to four sides replaced by shallow arcs bulging outwards (a crowned plate):
+    sagitta = chord * 10^U(-4.7, -2.5), i.e. arcs spanning 1.6e-4 ... 0.025 rad with radii of
+    40 ... 6000 chords.  Opt-in kind (not part of the default kinds).
+    """
+    x0, y0, x1, y1 = box
+    c = [(x0, y0), (x1, y0), (x1, y1), (x0, y1)]
+    crowned = [rnd.random() < 0.5 for _ in range(4)]
+    if not any(crowned):
+        crowned[rnd.randrange(4)] = True
+    edges, sags = [], []
+    for i in range(4):
+        P, Q = c[i], c[(i + 1) % 4]
+        if crowned[i]:
+            L = math.hypot(Q[0] - P[0], Q[1] - P[1])
+            sag = L * 10.0 ** rnd.uniform(-4.7, -2.5)
+            sags.append(sag)
+            edges.append(crowned_edge(P, Q, sag))
+        else:
+            edges.append(("L", P, Q))
+    return Ring("crowned", edges, _shrink(box, 3), {"sagittas": sags})
+
+
 MAKERS = {
     "rect": make_rect, "convex": make_convex, "star": make_star,
     "rectilinear": make_rectilinear, "circle": make_circle, "bullet": make_bullet,
-    "horseshoe": make_horseshoe,
+    "horseshoe": make_horseshoe, "crowned": make_crowned,
 }
+# kinds that are only used when asked for by name
+OPT_IN_KINDS = {"crowned"}
 
 
 def _box_area(b):
@@ -483,7 +537,7 @@ def make_drawing(rnd, kinds=None, max_depth=3, size=None, max_rings=10):
     `tol.merge * scale` (1e-5 x diagonal), i.e. a 0.01 grid here, while distinct generated
     points are >= 0.9 apart.
     """
-    kinds = list(kinds or MAKERS)
+    kinds = list(kinds or [k for k in MAKERS if k not in OPT_IN_KINDS])
     size = size or rnd.choice([40, 80, 160, 240])
     ox, oy = rnd.randint(-200, 200), rnd.randint(-200, 200)
     ntop = rnd.choice([1, 1, 2, 2, 3])
@@ -534,10 +588,137 @@ def make_drawing(rnd, kinds=None, max_depth=3, size=None, max_rings=10):
     return Drawing(rings, kinds=kinds)
 
 
-def drawing_from_seed(seed, kinds=None, max_depth=3):
+def drawing_from_seed(seed, kinds=None, max_depth=3, max_rings=10):
     import random
 
-    d = make_drawing(random.Random(int(seed)), kinds=kinds, max_depth=max_depth)
+    d = make_drawing(random.Random(int(seed)), kinds=kinds, max_depth=max_depth, max_rings=max_rings)
+    d.seed = int(seed)
+    return d
+
+
+# ----------------------------------------------------------------------------
+# opt-in drawings with features next to the library's resolution (float nodes)
+
+
+def _link(rings, child, parent):
+    rings[child].parent = parent
+    rings[child].depth = rings[parent].depth + 1
+    rings[parent].children.append(child)
+
+
+def make_rounded_ring(rnd, box, radius, corners=None):
+    """
+    A rectangle (float box) whose corners are broken by a fillet (quarter arc), a chamfer (one short
+    straight edge) or left sharp; straight edges start and end exactly at the nodes of the corner
+    pieces.  corners: four of "fillet" / "chamfer" / "sharp" (default: random, at least one fillet).
+    """
+    x0, y0, x1, y1 = [float(v) for v in box]
+    r = float(radius)
+    if corners is None:
+        corners = [rnd.choice(["fillet", "fillet", "fillet", "chamfer", "sharp"]) for _ in range(4)]
+        if "fillet" not in corners:
+            corners[rnd.randrange(4)] = "fillet"
+    # corner k: centre of the fillet, start angle (quarter turns); walking counter-clockwise the
+    # corners come in the order bottom-right, top-right, top-left, bottom-left
+    cen = [(x1 - r, y0 + r, 3), (x1 - r, y1 - r, 0), (x0 + r, y1 - r, 1), (x0 + r, y0 + r, 2)]
+    sharp = [(x1, y0), (x1, y1), (x0, y1), (x0, y0)]
+    pieces = []  # per corner: (entry node, exit node, edge or None)
+    for k in range(4):
+        cx, cy, q = cen[k]
+        a = _arc_point_exact(cx, cy, r, q * math.pi / 2)
+        b = _arc_point_exact(cx, cy, r, (q + 1) * math.pi / 2)
+        if corners[k] == "fillet":
+            pieces.append((a, b, ("A", (cx, cy), r, q * math.pi / 2, (q + 1) * math.pi / 2, a, b)))
+        elif corners[k] == "chamfer":
+            pieces.append((a, b, ("L", a, b)))
+        else:
+            pieces.append((sharp[k], sharp[k], None))
+    edges = []
+    for k in range(4):
+        prev = pieces[k - 1]
+        edges.append(("L", prev[1], pieces[k][0]))
+        if pieces[k][2] is not None:
+            edges.append(pieces[k][2])
+    return Ring("rounded", edges, (x0, y0, x1, y1), {"float_nodes": True, "radius": r, "corners": list(corners)})
+
+
+def make_fillet_drawing(rnd):
+    """
+    One or two rounded plates (optionally with a rounded window) whose corner radius lies between
+    3e-6 and 5e-4 of the diagonal of the drawing - on both sides of the grid to which
+    Path.merge_vertices rounds (1e-5 ... 1e-4 of the diagonal).  Everything else (sides, gaps) is
+    larger than 5 % of the plate.  Float placement: where the corners fall on the grid is random.
+    """
+    size = 10.0 ** rnd.uniform(0.0, 3.3)
+    w, h = size * rnd.uniform(0.5, 1.0), size * rnd.uniform(0.5, 1.0)
+    ox, oy = rnd.uniform(-2.0, 2.0) * size, rnd.uniform(-2.0, 2.0) * size
+    n = rnd.choice([1, 1, 2])
+    total = math.hypot(w * n * 1.2, h)
+    rings = []
+    for i in range(n):
+        box = (ox + i * 1.2 * w, oy, ox + i * 1.2 * w + w, oy + h)
+        rad = total * 10.0 ** rnd.uniform(-5.5, -3.3)
+        rings.append(make_rounded_ring(rnd, box, rad))
+        outer = len(rings) - 1
+        if rnd.random() < 0.5:
+            m = rnd.uniform(0.1, 0.3)
+            inner = (box[0] + m * w, box[1] + m * h, box[2] - m * w, box[3] - m * h)
+            rad = total * 10.0 ** rnd.uniform(-5.5, -3.3)
+            rings.append(make_rounded_ring(rnd, inner, rad))
+            _link(rings, len(rings) - 1, outer)
+    return Drawing(rings, kinds=["rounded"])
+
+
+def make_close_drawing(rnd):
+    """
+    Two nested curves separated by a gap of 1e-4 ... 6e-4 of the radius of the outer circle - less
+    than the sagitta of the chords into which an arc is legitimately polygonised (8e-4 ... 1.4e-3 of the
+    radius), more than the merge grid of the drawing (<= 2.9e-4 of the radius; the control points
+    are checked to be further apart than that by the caller):
+      fit         a concentric circle
+      eccentric   a smaller circle touching distance away from the outer one at one side
+      inscribed   a convex polygon with 3-6 corners at the gap from the outer circle
+    """
+    R = rnd.randint(10, 120)
+    cx, cy = rnd.randint(-200, 200), rnd.randint(-200, 200)
+    gap = R * 10.0 ** rnd.uniform(-4.0, -3.22)
+    t0 = rnd.choice([0.0, math.pi / 2, rnd.uniform(0, TWO_PI)])
+    outer = Ring("circle", [("A", (cx, cy), R, t0, t0 + TWO_PI)], (cx, cy, cx, cy))
+    variant = rnd.choice(["fit", "fit", "eccentric", "inscribed"])
+    if variant == "fit":
+        t1 = rnd.uniform(0, TWO_PI)
+        inner = Ring("circle", [("A", (cx, cy), R - gap, t1, t1 + TWO_PI)], (cx, cy, cx, cy))
+    elif variant == "eccentric":
+        rho = R * rnd.uniform(0.3, 0.8)
+        a = rnd.uniform(0, TWO_PI)
+        d = R - gap - rho
+        t1 = rnd.uniform(0, TWO_PI)
+        c2 = (cx + d * math.cos(a), cy + d * math.sin(a))
+        inner = Ring("circle", [("A", c2, rho, t1, t1 + TWO_PI)], (cx, cy, cx, cy))
+    else:
+        n = rnd.randint(3, 6)
+        while True:
+            ang = sorted(rnd.uniform(0, TWO_PI) for _ in range(n))
+            d = [(ang[(i + 1) % n] - ang[i]) % TWO_PI for i in range(n)]
+            if min(d) > 0.3 and max(d) < 0.9 * math.pi:
+                break
+        pts = [(cx + (R - gap) * math.cos(t), cy + (R - gap) * math.sin(t)) for t in ang]
+        edges = [("L", pts[i], pts[(i + 1) % n]) for i in range(n)]
+        inner = Ring("polygon", edges, (cx, cy, cx, cy), {"float_nodes": True})
+    rings = [outer, inner]
+    _link(rings, 1, 0)
+    d = Drawing(rings, kinds=["close:" + variant])
+    d.gap = gap
+    return d
+
+
+SPECIAL = {"fillet": make_fillet_drawing, "close": make_close_drawing}
+
+
+def special_drawing_from_seed(cls, seed):
+    import random
+
+    d = SPECIAL[cls](random.Random(int(seed)))
     d.seed = int(seed)
     return d
 
@@ -590,11 +771,15 @@ class Presentation:
         )
 
 
-def _refine_ring(rnd, ring, allow_closed_arc=True):
+def _refine_ring(rnd, ring, allow_closed_arc=True, arc_pieces=None):
     """
     Split the base edges of a ring into final edges:
       ("L", P, Q) or ("A", P, M, Q)   with P, M, Q points; or ("C", P, M, Q) a closed circle entity.
     Walking order is counter-clockwise.
+
+    arc_pieces = (lo, hi[, "mid"]): opt-in fine splitting - every arc is cut into randint(lo, hi) pieces per
+    full turn (at least one), of equal or moderately unequal size, the control point anywhere in the
+    middle 60 % of a piece.  None: the default splitting into 1-4 pieces of at least 0.5 rad.
     """
     out = []
     for e in ring.edges:
@@ -604,6 +789,25 @@ def _refine_ring(rnd, ring, allow_closed_arc=True):
         (cx, cy), r, t0, t1 = e[1], e[2], e[3], e[4]
         span = t1 - t0
         full = abs(span - TWO_PI) < 1e-12
+        if arc_pieces is not None:
+            k = max(1, int(round(rnd.randint(arc_pieces[0], arc_pieces[1]) * span / TWO_PI)))
+            # (lo, hi, "mid"): pieces of nearly equal size with the control point near their middle,
+            # which keeps all control points as far apart as the number of pieces allows
+            mid = len(arc_pieces) > 2 and arc_pieces[2] == "mid"
+            j = 0.1 if mid else 0.25
+            if k > 1 and rnd.random() < 0.5:
+                cuts = [t0] + [t0 + span * (i + rnd.uniform(-j, j)) / k for i in range(1, k)] + [t1]
+            else:
+                cuts = [t0 + span * i / k for i in range(k + 1)]
+            pts = [_arc_point_exact(cx, cy, r, t) for t in cuts]
+            pts[-1] = pts[0] if full else _arc_point_exact(cx, cy, r, t1)
+            if len(e) > 5:
+                # the exact end nodes of the arc (shared with the neighbouring straight edges)
+                pts[0], pts[-1] = e[5], e[6]
+            for i in range(k):
+                tm = cuts[i] + (cuts[i + 1] - cuts[i]) * (rnd.uniform(0.4, 0.6) if mid else rnd.uniform(0.2, 0.8))
+                out.append(("A", pts[i], _arc_point_exact(cx, cy, r, tm), pts[i + 1]))
+            continue
         if full and allow_closed_arc and rnd.random() < 0.12:
             a = t0
             out.append(("C", _arc_point_exact(cx, cy, r, a), _arc_point_exact(cx, cy, r, a + 2.0),
@@ -628,6 +832,8 @@ def _refine_ring(rnd, ring, allow_closed_arc=True):
         pts = [_arc_point_exact(cx, cy, r, t) for t in cuts]
         if full:
             pts[-1] = pts[0]
+        elif len(e) > 5:
+            pts[0], pts[-1] = e[5], e[6]
         for i in range(k):
             # the middle control point anywhere in the middle 40 % of the piece
             # ... or, a third of the time, anywhere on it: a three point arc is defined by ANY
@@ -645,7 +851,7 @@ def _refine_ring(rnd, ring, allow_closed_arc=True):
     return out
 
 
-def present(drawing, rnd, mode=None, p_cut=None, allow_closed_arc=True):
+def present(drawing, rnd, mode=None, p_cut=None, allow_closed_arc=True, arc_pieces=None):
     """One random presentation of the drawing."""
     mode = mode or rnd.choice(["unmerged", "unmerged", "mixed", "merged"])
     p_cut = rnd.choice([0.0, 0.2, 0.5, 1.0]) if p_cut is None else p_cut
@@ -657,7 +863,7 @@ def present(drawing, rnd, mode=None, p_cut=None, allow_closed_arc=True):
 
     entities, ent_ring, ent_seq, ring_len = [], [], [], []
     for ri, ring in enumerate(drawing.rings):
-        edges = _refine_ring(rnd, ring, allow_closed_arc)
+        edges = _refine_ring(rnd, ring, allow_closed_arc, arc_pieces)
         n = len(edges)
         if rnd.random() < 0.5:
             # walk the ring clockwise
